@@ -93,6 +93,66 @@ impl C14 {
         }
         out
     }
+    /// A sequence of key-generation calls on ONE fresh thread. codes: 0 keygen, 1 extended_keygen, 2/3 seeded_keygen
+    /// (seed A/B), 4/5 extended_seeded_keygen (seed A/B). Seeded results must equal the reference whatever came
+    /// before; unseeded results must satisfy the relations and every random component must be new: different from
+    /// every other unseeded component of the sequence and from every component derivable from the two seeds.
+    fn seq(&self, codes: &[u8]) -> Vec<Discrepancy> {
+        let case = json!({"kind":"seq","calls":codes});
+        let codes: Vec<u8> = codes.to_vec();
+        let h = std::thread::spawn(move || -> Vec<(usize, &'static str, String)> {
+            let sa: &[u8] = b"sequence seed A";
+            let sb: &[u8] = b"sequence seed B, somewhat longer than thirty-two bytes";
+            let mut bad = vec![];
+            let mut known: BTreeSet<BigUint> = BTreeSet::new();
+            for sd in [sa, sb] {
+                let ((s, _), (t, n, es, _)) = ref_seeded(sd);
+                known.extend([s, t, n, es]);
+            }
+            let mut fresh: BTreeSet<BigUint> = BTreeSet::new();
+            for (k, c) in codes.iter().enumerate() {
+                let r = guard(|| -> Vec<BigUint> {
+                    match c {
+                        0 => { let (s, c) = keygen(); vec![from_fr(&s), from_fr(&c)] }
+                        1 => { let (t, n, es, ec) = extended_keygen(); vec![from_fr(&t), from_fr(&n), from_fr(&es), from_fr(&ec)] }
+                        2 | 3 => { let (s, c) = seeded_keygen(if *c == 2 { sa } else { sb }); vec![from_fr(&s), from_fr(&c)] }
+                        _ => { let (t, n, es, ec) = extended_seeded_keygen(if *c == 4 { sa } else { sb }); vec![from_fr(&t), from_fr(&n), from_fr(&es), from_fr(&ec)] }
+                    }
+                });
+                let v = match r { Ok(v) => v, Err(p) => { bad.push((k, "panic", p)); continue; } };
+                match c {
+                    0 | 1 => {
+                        let ok = if *c == 0 { poseidon::hash(&[v[0].clone()]) == v[1] } else { poseidon::hash(&[v[0].clone(), v[1].clone()]) == v[2] && poseidon::hash(&[v[2].clone()]) == v[3] };
+                        if !ok {
+                            bad.push((k, "relations", "the unseeded identity does not satisfy the commitment relations".into()));
+                        }
+                        let comps: Vec<BigUint> = if *c == 0 { vec![v[0].clone()] } else { vec![v[0].clone(), v[1].clone()] };
+                        for x in comps {
+                            if known.contains(&x) {
+                                bad.push((k, "repeats-a-seeded-value", format!("the unseeded call returned {x}, a value derivable from one of the seeds used earlier")));
+                            } else if !fresh.insert(x.clone()) {
+                                bad.push((k, "repeats-an-earlier-value", format!("the unseeded call returned {x} a second time")));
+                            }
+                        }
+                    }
+                    _ => {
+                        let sd = if *c == 2 || *c == 4 { sa } else { sb };
+                        let ((s, cm), (t, n, es, ec)) = ref_seeded(sd);
+                        let want = if *c <= 3 { vec![s, cm] } else { vec![t, n, es, ec] };
+                        if v != want {
+                            bad.push((k, "differs-from-reference", "the seeded identity differs from the reference derivation".into()));
+                        }
+                    }
+                }
+            }
+            bad
+        });
+        let bad = h.join().unwrap_or_default();
+        match bad.first() {
+            Some((k, sym, d)) => vec![Discrepancy { key: format!("C14/sequence/{}/{sym}", if codes_unseeded(&case, *k) { "unseeded-call" } else { "seeded-call" }), case: case.clone(), detail: format!("call number {k} of the sequence: {d}") }],
+            None => vec![],
+        }
+    }
     /// relations and canonical range of one unseeded identity, through every entry point
     fn unseeded(&self, which: usize) -> (Vec<Discrepancy>, Vec<Vec<u8>>) {
         let mut out = vec![];
@@ -145,6 +205,10 @@ impl C14 {
     }
 }
 
+fn codes_unseeded(case: &Value, k: usize) -> bool {
+    case["calls"][k].as_u64().map(|c| c <= 1).unwrap_or(false)
+}
+
 fn seeds(seed: u64, thorough: bool) -> Vec<Vec<u8>> {
     let mut v: Vec<Vec<u8>> = vec![b"A seed phrase example".to_vec(), (0u8..10).collect()];
     let mut rng = SplitMix(seed ^ 0xC14);
@@ -180,6 +244,7 @@ impl Prop for C14 {
         match case["kind"].as_str().unwrap_or("") {
             "seed" => self.seeded(&unhex(case["hex"].as_str().unwrap_or(""))),
             "unseeded" => self.unseeded(case["entry"].as_u64().unwrap_or(0) as usize).0,
+            "seq" => self.seq(&case["calls"].as_array().cloned().unwrap_or_default().iter().map(|x| x.as_u64().unwrap_or(0) as u8).collect::<Vec<u8>>()),
             _ => vec![],
         }
     }
@@ -283,13 +348,33 @@ impl Prop for C14 {
                 }
             }
         }
-        ev.set("evaluations", json!(ss.len() + spread.len() + n_unseeded));
+        // every sequence of up to 4 (thorough: 5) key-generation calls on one fresh thread
+        let mut seqs: Vec<Vec<u8>> = vec![];
+        let mut cur: Vec<Vec<u8>> = vec![vec![]];
+        for _ in 0..(if q { 4 } else { 5 }) {
+            let mut next = vec![];
+            for h in &cur {
+                for c in 0u8..6 {
+                    let mut n = h.clone();
+                    n.push(c);
+                    next.push(n);
+                }
+            }
+            seqs.extend(next.iter().cloned());
+            cur = next;
+        }
+        let sres = par_map(&seqs, ncpu(), |_, sq| self.seq(sq));
+        for r in sres {
+            findings.report_all(r);
+        }
+        ev.set("call_sequences_on_one_thread", json!(seqs.len()));
+        ev.set("evaluations", json!(ss.len() + spread.len() + n_unseeded + seqs.len()));
         ev.set("distinct_nontrivial", json!(ss.len()));
         ev.set("seeds", json!(ss.len()));
         ev.set("unseeded_identities", json!(n_unseeded));
         ev.set("distinct_random_components", json!(total_ids));
         ev.set("exhaustive", json!(true));
-        ev.set("rule", json!("seeds: the two documented ones plus every length in the alphabet (quick: 0,1,2,10,31,32,33,135,136,137,271,272,273,1000; thorough: every length 0..300, 1000, 4096, 65536) x {zeros, ones, counter, seeded random}; each seed goes through protocol::seeded_keygen / extended_seeded_keygen, RLN::seeded_key_gen / seeded_extended_key_gen and the two FFI functions, twice, on 4 threads, and a spread of seeds through a second process; outputs must equal the independent derivation Keccak-256 -> ChaCha20 -> rejection sampling -> Poseidon relations, byte for byte; all seeds give pairwise distinct identities; unseeded identities from the three surfaces satisfy the relations, are canonical and pairwise distinct; distinct_nontrivial = distinct seeds"));
+        ev.set("rule", json!("seeds: the two documented ones plus every length in the alphabet (quick: 0,1,2,10,31,32,33,135,136,137,271,272,273,1000; thorough: every length 0..300, 1000, 4096, 65536) x {zeros, ones, counter, seeded random}; each seed goes through protocol::seeded_keygen / extended_seeded_keygen, RLN::seeded_key_gen / seeded_extended_key_gen and the two FFI functions, twice, on 4 threads, and a spread of seeds through a second process; outputs must equal the independent derivation Keccak-256 -> ChaCha20 -> rejection sampling -> Poseidon relations, byte for byte; all seeds give pairwise distinct identities; unseeded identities from the three surfaces satisfy the relations, are canonical and pairwise distinct; every sequence of up to 4 (thorough 5) calls over {keygen, extended_keygen, seeded_keygen(A|B), extended_seeded_keygen(A|B)} on a fresh thread: seeded results equal the reference whatever preceded, unseeded components are new (not repeated, not derivable from A or B); distinct_nontrivial = distinct seeds"));
         ev.sample(json!({"seed_hex": hex(&ss[0])}));
         ev.sample(json!({"seed_hex": hex(&ss[5]), "len": ss[5].len()}));
         ev.sample(json!({"seed_len": ss[ss.len() - 1].len()}));
